@@ -3,7 +3,7 @@ SPECIFICATION Spec
 CONSTANTS MaxLen = 10
   MaxDepth = 2
   EmitAt = 10
-  Fuel = 80
+  Fuel = 150
   EmitTree = FALSE
   Devs = {}
-INVARIANTS Laws Emit
+INVARIANTS Check
